@@ -1677,3 +1677,136 @@ silent("c10-silent-quotient-rearranged", ["C10"], DIF,
 silent("c10-silent-power-rearranged", ["C10"], DIF,
        "            return g * f**(g-1) * df\n        else:",
        "            return df * (g * f**(g-1))\n        else:")
+
+# ---------------------------------------------------------------------------
+# behaviour-preserving refactorings (must stay silent)
+# ---------------------------------------------------------------------------
+silent("refactor-ident-sum-tuple", ["C04", "C08", "C11"], MI,
+       "    def map_sum(self, expr, *args, **kwargs):\n"
+       "        children = [self.rec(child, *args, **kwargs) for child in expr.children]\n"
+       "        if all(child is orig_child\n"
+       "                for child, orig_child in zip(children, expr.children)):\n"
+       "            return expr\n\n        return type(expr)(tuple(children))\n\n    map_product = map_sum",
+       "    def map_sum(self, expr, *args, **kwargs):\n"
+       "        new_children = tuple(self.rec(c, *args, **kwargs) for c in expr.children)\n"
+       "        unchanged = all(new is old for old, new in zip(expr.children, new_children))\n"
+       "        if unchanged:\n            return expr\n\n"
+       "        return expr.__class__(new_children)\n\n    map_product = map_sum")
+silent("refactor-combine-call-extend", ["C04", "C09"], MI,
+       "    def map_call(self, expr, *args, **kwargs):\n        return self.combine((\n"
+       "            self.rec(expr.function, *args, **kwargs),\n"
+       "            *[self.rec(child, *args, **kwargs) for child in expr.parameters]\n"
+       "            ))",
+       "    def map_call(self, expr, *args, **kwargs):\n"
+       "        results = [self.rec(expr.function, *args, **kwargs)]\n"
+       "        results.extend(self.rec(child, *args, **kwargs) for child in expr.parameters)\n"
+       "        return self.combine(results)")
+silent("refactor-walk-quotient-order", ["C04", "C09"], MI,
+       "        self.rec(expr.numerator, *args, **kwargs)\n"
+       "        self.rec(expr.denominator, *args, **kwargs)\n\n"
+       "        self.post_visit(expr, *args, **kwargs)\n\n    map_floor_div = map_quotient",
+       "        self.rec(expr.denominator, *args, **kwargs)\n"
+       "        self.rec(expr.numerator, *args, **kwargs)\n\n"
+       "        self.post_visit(expr, *args, **kwargs)\n\n    map_floor_div = map_quotient")
+silent("refactor-cachedmapper-try", ["C04", "C05"], MI,
+       "        result = self._cache.get(\n"
+       "                (cache_key := self.get_cache_key(expr, *args, **kwargs)),\n"
+       "                _NOT_IN_CACHE)\n"
+       "        if result is not _NOT_IN_CACHE:\n            return result\n",
+       "        cache_key = self.get_cache_key(expr, *args, **kwargs)\n"
+       "        try:\n            return self._cache[cache_key]\n"
+       "        except KeyError:\n            pass\n")
+silent("refactor-evaluator-sum-loop", ["C02"], EVF,
+       "        return sum(self.rec(child) for child in expr.children)",
+       "        result = 0\n        for child in expr.children:\n"
+       "            result = result + self.rec(child)\n        return result")
+silent("refactor-evaluator-if-ternary", ["C02"], EVF,
+       "    def map_if(self, expr):\n        if self.rec(expr.condition):\n"
+       "            return self.rec(expr.then)\n        else:\n"
+       "            return self.rec(expr.else_)",
+       "    def map_if(self, expr):\n        if not self.rec(expr.condition):\n"
+       "            return self.rec(expr.else_)\n        return self.rec(expr.then)")
+silent("refactor-add-guard-order", ["C03"], PR,
+       "        if is_nonzero(other):\n            if self:\n"
+       "                if isinstance(other, Sum):\n"
+       "                    return Sum((self, *other.children))\n"
+       "                else:\n                    return Sum((self, other))\n"
+       "            else:\n                return other\n        else:\n            return self\n\n"
+       "    def __radd__",
+       "        if not is_nonzero(other):\n            return self\n"
+       "        if not self:\n            return other\n"
+       "        if isinstance(other, Sum):\n            return Sum((self, *other.children))\n"
+       "        return Sum((self, other))\n\n    def __radd__")
+silent("refactor-stringify-if-fstring", ["C06", "C13"], SF,
+       "                \"{} if {} else {}\".format(\n"
+       "                    self.rec(expr.then, PREC_LOGICAL_OR, *args, **kwargs),\n"
+       "                    self.rec(expr.condition, PREC_LOGICAL_OR, *args, **kwargs),\n"
+       "                    self.rec(expr.else_, PREC_LOGICAL_OR, *args, **kwargs)),\n"
+       "                enclosing_prec, PREC_IF)\n\n    def map_if_positive",
+       "                self.format(\"%s if %s else %s\",\n"
+       "                    self.rec(expr.then, PREC_LOGICAL_OR, *args, **kwargs),\n"
+       "                    self.rec(expr.condition, PREC_LOGICAL_OR, *args, **kwargs),\n"
+       "                    self.rec(expr.else_, PREC_LOGICAL_OR, *args, **kwargs)),\n"
+       "                enclosing_prec, PREC_IF)\n\n    def map_if_positive")
+silent_multi("refactor-printer-renumber", ["C06", "C13", "C14"], SF,
+             [("PREC_CALL = 15", "PREC_CALL = 150"), ("PREC_POWER = 14", "PREC_POWER = 140"),
+              ("PREC_UNARY = 13", "PREC_UNARY = 130"), ("PREC_PRODUCT = 12", "PREC_PRODUCT = 120"),
+              ("PREC_SUM = 11", "PREC_SUM = 110"), ("PREC_SHIFT = 10", "PREC_SHIFT = 100"),
+              ("PREC_BITWISE_AND = 9", "PREC_BITWISE_AND = 90"),
+              ("PREC_BITWISE_XOR = 8", "PREC_BITWISE_XOR = 80"),
+              ("PREC_BITWISE_OR = 7", "PREC_BITWISE_OR = 70"),
+              ("PREC_COMPARISON = 6", "PREC_COMPARISON = 60"),
+              ("PREC_LOGICAL_AND = 5", "PREC_LOGICAL_AND = 50"),
+              ("PREC_LOGICAL_OR = 4", "PREC_LOGICAL_OR = 40"), ("PREC_IF = 3", "PREC_IF = 30")])
+silent("refactor-depmapper-branch-order", ["C09"], DE,
+       "        if self.include_calls == \"descend_args\":\n"
+       "            return self.combine(\n"
+       "                    [self.rec(child, *args, **kwargs) for child in expr.parameters])\n"
+       "        elif self.include_calls:\n            return {expr}\n        else:\n"
+       "            return super().map_call(expr, *args, **kwargs)",
+       "        if not self.include_calls:\n"
+       "            return super().map_call(expr, *args, **kwargs)\n"
+       "        if self.include_calls != \"descend_args\":\n            return {expr}\n"
+       "        return self.combine(\n"
+       "                [self.rec(child, *args, **kwargs) for child in expr.parameters])")
+silent("refactor-diff-rename-locals", ["C10"], DIF,
+       "        f = expr.numerator\n        g = expr.denominator\n"
+       "        df = self.rec(f, *args)\n        dg = self.rec(g, *args)\n"
+       "        f = self.rec_undiff(f, *args)\n        g = self.rec_undiff(g, *args)\n\n"
+       "        if (not df) and (not dg):\n            return 0\n"
+       "        elif (not df):\n            return -f*dg/g**2\n"
+       "        elif (not dg):\n            return self.rec(f, *args)/g\n"
+       "        else:\n            return (df*g-dg*f)/g**2",
+       "        du = self.rec(expr.numerator, *args)\n        dv = self.rec(expr.denominator, *args)\n"
+       "        u = self.rec_undiff(expr.numerator, *args)\n"
+       "        v = self.rec_undiff(expr.denominator, *args)\n\n"
+       "        if (not du) and (not dv):\n            return 0\n"
+       "        elif (not du):\n            return -(u*dv)/(v*v)\n"
+       "        elif (not dv):\n            return du/v\n"
+       "        else:\n            return (du*v-dv*u)/v**2")
+silent("refactor-substitutor-walrus", ["C08"], SU,
+       "    def map_lookup(self, expr):\n        result = self.subst_func(expr)\n"
+       "        if result is not None:\n            return result\n        else:\n"
+       "            return IdentityMapper.map_lookup(self, expr)",
+       "    def map_lookup(self, expr):\n"
+       "        if (result := self.subst_func(expr)) is not None:\n            return result\n"
+       "        return super().map_lookup(expr)")
+silent("refactor-fuse-comprehension", ["C20"], TRF,
+       "    for stmtb in b_unique_statements:\n        new_statements.append(\n"
+       "                stmtb.copy(\n                    depends_on=frozenset(\n"
+       "                        old_b_id_to_new_b_id[dep_id]\n"
+       "                        for dep_id in stmtb.depends_on)))\n",
+       "    for renamed in b_unique_statements:\n"
+       "        new_deps = frozenset(old_b_id_to_new_b_id[d] for d in renamed.depends_on)\n"
+       "        new_statements.append(renamed.copy(depends_on=new_deps))\n")
+silent("refactor-compile-sorted", ["C13"], CO,
+       "        used_variables = list(used_variables)\n"
+       "        used_variables.sort(key=lambda var: var.name)\n"
+       "        all_variables = self._Variables + used_variables\n",
+       "        all_variables = self._Variables + sorted(used_variables, key=lambda v: v.name)\n")
+silent("refactor-ccode-product-join", ["C14"], CF,
+       "                self.join_rec(\" * \", expr.children, PREC_PRODUCT,\n"
+       "                    force_parens_around=(Remainder,)),",
+       "                self.join_rec(\" * \", expr.children, PREC_PRODUCT,\n"
+       "                    force_parens_around=(Remainder, FloorDivMarker)\n"
+       "                    if False else (Remainder,)),")
